@@ -24,6 +24,29 @@ var fineGrained = map[string][]string{
 		"internal/listobjects/pipeline/internal/worker/basic.go",
 		"internal/listobjects/pipeline/internal/worker/medium.go",
 	},
+	"hpipe": {
+		"internal/containers/mpmc/queue.go",
+		"internal/containers/mpsc/accumulator.go",
+		"internal/listobjects/pipeline/internal/track/reporting.go",
+		"internal/listobjects/pipeline/internal/worker/core.go",
+		"internal/listobjects/pipeline/internal/worker/cycle.go",
+		"internal/listobjects/pipeline/internal/worker/basic.go",
+		"internal/listobjects/pipeline/internal/worker/medium.go",
+		"internal/listobjects/pipeline/internal/worker/difference.go",
+		"internal/listobjects/pipeline/internal/worker/intersection.go",
+		"internal/listobjects/pipeline/pipeline.go",
+	},
+}
+
+// harnessPkg maps a harness name to the sim package that hosts it (default: the same name). "hpipe"
+// is the engine harness compiled with the fine-grained instrumentation over the pipeline sources.
+var harnessPkg = map[string]string{"hpipe": "hengine"}
+
+func pkgOf(harness string) string {
+	if p, ok := harnessPkg[harness]; ok {
+		return p
+	}
+	return harness
 }
 
 func needsInstrumentation(harness string) bool { return len(fineGrained[harness]) > 0 }
